@@ -72,6 +72,10 @@ func genC09Atom(rng *rand.Rand, c ColSpec, key bool) Atom {
 		return AI(c09Ints[rng.Intn(len(c09Ints))])
 	case "uuid":
 		return AU(uuidPool[1+rng.Intn(len(uuidPool)-1)])
+	case "string":
+		if !c.IsEnum && rng.Intn(3) == 0 {
+			return AS(c09Strings[rng.Intn(len(c09Strings))])
+		}
 	case "real":
 		if rng.Intn(4) == 0 {
 			// whole numbers too large for a float64 to write them with a fraction or an exponent: on the wire they
@@ -81,6 +85,10 @@ func genC09Atom(rng *rand.Rand, c ColSpec, key bool) Atom {
 	}
 	return genAtom(rng, t)
 }
+
+// strings that need escaping on the wire: control characters, quotes, characters outside the basic plane, what
+// an HTML-safe encoder rewrites (all valid UTF-8: JSON cannot carry anything else)
+var c09Strings = []string{"x\x01y", "\x7f", "bell\a", "a\vb", "\x00", "q\"uote", "back\\slash", "tab\there", "line\nbreak", "\r", "é", "\U000E0001", "<&>", "\u2028", "日本", "'", "\\u0041"}
 
 var c09Reals = []float64{1 << 62, -(1 << 60), 1.2e18, 9007199254740994, 1e19, 1e20, 18446744073709551616, -9223372036854775808 * 2, 1.2345678901234568e20}
 
